@@ -157,13 +157,35 @@ def _W(ctx, buf, a, b):
 
 @REG.specfun('eseq')
 def _eseq(ctx, v):
-    return as_eseq(v)
+    key = id(v)
+    cache = ctx.st.ghost.setdefault('$eseq', {})
+    if key not in cache:
+        cache[key] = as_eseq(v, ctx.st)
+    return cache[key]
+
+
+def leaf_of_token(t, st):
+    """a raw Token / str stored in a content list (verbatim bodies): a text leaf that prints as itself"""
+    e = fresh('e_raw', E)
+    if st is not None:
+        st.fact(ser(e) == strz(t))
+        st.fact(kind(e) == kind_of('str'))
+        st.fact(tight(e))
+        for fn in LEAF_HOOKS:
+            fn(st, e)
+    return VE(e)
+
+
+LEAF_HOOKS = []
 
 
 def as_eseq(v, st=None):
     """any list-like value holding expressions -> seq[E]"""
     if v.ty == 'seq' and v.a['elem'] == 'E':
         return v
+    if v.ty == 'list' and v.a['items'] and all(x.ty in ('E', 'tok', 'str') for x in v.a['items']) and \
+            any(x.ty != 'E' for x in v.a['items']):
+        return retype(VList([x if x.ty == 'E' else leaf_of_token(x, st) for x in v.a['items']]), 'seq[E]')
     if v.ty == 'list' and all(x.ty == 'E' for x in v.a['items']):
         return retype(v, 'seq[E]')
     if v.ty == 'tuple' and not v.a['items']:
@@ -250,13 +272,29 @@ def coerce_hook(eng, what, payload, st):
 REG.attr_hooks.append(coerce_hook)
 
 
+def group_shape(eng, st, g):
+    """class invariant of published groups: a Brace/Bracket group prints as begin + contents + end (its __str__ contract;
+    published expressions are never mutated by the reader)"""
+    for cls in ('data.BraceGroup', 'data.BracketGroup'):
+        b, e_ = eng.repo.class_attr(cls, 'begin'), eng.repo.class_attr(cls, 'end')
+        st.fact(Implies(And(kind(g) == kind_of(cls), Not(isbare(g))),
+                        And(ser(g) == Concat(pystr(b), SL(body(g)), pystr(e_)),
+                            NW(ser(g)) == Concat(pystr(b), NW(SL(body(g))), pystr(e_)))))
+
+
 def e_attr_hook(eng, what, payload, st):
+    if what == 'constructed':
+        cls, obj, args, kwargs = payload
+        if cls == 'data.TexNamedEnv' and args and args[0].a.get('string_of') is not None:
+            obj.a['name_group'] = args[0].a['string_of']
+        return None
     if what == 'getattr':
         v, attr, node = payload
         if v.ty == 'E':
             if attr == 'string':        # TexExpr.string: TexText(''.join(map(str, self._contents)))
                 sl_facts(st, body(v.z))
-                return [('val', st, VS(SL(body(v.z))))]
+                group_shape(eng, st, v.z)
+                return [('val', st, Val('str', SL(body(v.z)), string_of=v.z))]
             if attr == 'position':
                 return [('val', st, VI(epos(v.z)))]
             if attr == 'name':
